@@ -1,5 +1,4 @@
-import HexProofs.Writes.Twin
-import HexProofs.Lib.IntInst
+import HexProofs.Writes.PropsLib
 /-
 C08 – Indicators inside a Hexital behave exactly like the same indicators standalone (every `F`).
 
@@ -47,19 +46,8 @@ produced – the calculation that follows changes none of them -/
 theorem append_keeps_ohlcv (s s' : IndState F) (new : List (Candle F)) (h : s.append new = .ok s') :
     ∃ m, s.mgr.append new = .ok m ∧ s'.mgr.candles.map Candle.core = m.candles.map Candle.core := by
   unfold IndState.append at h
-  obtain ⟨m, hm, h⟩ := bind_ok h
+  obtain ⟨m, hm, h⟩ := Writes.bind_ok h
   exact ⟨m, hm, (IndState.calculate_local _ s' h).agree.core_eq⟩
-
-/-- every manager of the Hexital: same key, same configuration, same candles OHLCV-wise -/
-def SameBase (h h' : Hexital F) : Prop :=
-  h'.managers.map (·.1) = h.managers.map (·.1) ∧
-  ∀ key m, dlookup key h.managers = some m →
-    ∃ m', dlookup key h'.managers = some m' ∧ m'.cfg = m.cfg ∧
-      m'.candles.map Candle.core = m.candles.map Candle.core
-
-omit [PyF F] in
-theorem sameBase_of_agree {N : List String} {h h' : Hexital F} (hh : HxAgreeOff N h h') : SameBase h h' :=
-  ⟨hh.mgrs.1, fun key m hm => hh.core_eq key m hm⟩
 
 /-- `Hexital.calculate(name)` / `calculate()` -/
 theorem hexital_calculate_keeps_ohlcv (h h' : Hexital F) (name : Option String)
@@ -82,7 +70,7 @@ theorem hexital_append_keeps_ohlcv (h h' : Hexital F) (new : List (Candle F))
     (hop : h.append new = .ok h') :
     ∃ h1, h.feedManagers new = .ok h1 ∧ SameBase h1 h' := by
   unfold Hexital.append at hop
-  obtain ⟨h1, e1, e2⟩ := bind_ok hop
+  obtain ⟨h1, e1, e2⟩ := Writes.bind_ok hop
   exact ⟨h1, e1, hexital_calculate_keeps_ohlcv h1 h' none e2⟩
 
 /-! ### a member is a standalone indicator over its manager -/
@@ -147,14 +135,18 @@ theorem member_standalone (cfg : MgrCfg) (tf : Option String) (init : List (Cand
     (hoth : ∀ m, m ∈ Hexital.dedupe members → m.tree.name ≠ a.tree.name → ∀ k, k ∈ m.tree.allNames → k ∈ N)
     (hok : TreeOK N a.tree) (hops : ∀ op, op ∈ ops → op.OK N a.tree.name)
     (hrun : runHexital cfg tf init members ops = .ok H) :
-    ∃ twin, runTwin a.tree cfg init ops = .ok twin ∧
+    ∃ twin, (do let s ← IndState.init a.tree cfg init
+                ops.foldlM (TwinOp.runInd a.tree.name) s) = .ok twin ∧
       (∃ hi m, dlookup a.tree.name H.indicators = some hi ∧ hi.tree = a.tree ∧
         dlookup hi.mgrKey H.managers = some m ∧ m.cfg = twin.mgr.cfg ∧
         m.candles.map Candle.core = twin.mgr.candles.map Candle.core ∧
         ∀ k, k ∈ a.tree.allNames → storedUnder k m.candles = storedUnder k twin.mgr.candles) ∧
       (∀ name, (splitDot name).headD "" = a.tree.name → readOK N name = true →
         H.readingAsList name = .ok (twin.asList (some name))) := by
-  obtain ⟨twin, hrun', ht, inv⟩ := member_twin cfg tf init members a ops H ha hatf hoth hok hops hrun
+  obtain ⟨twin, hrun', ht, inv⟩ := member_twin cfg tf init members a ops H ha
+    (fun m _ _ hne => absurd (by rw [hatf]; rfl) hne) hoth hok hops hrun
+  unfold runTwin at hrun'
+  rw [twinInit_of_none a hatf] at hrun'
   refine ⟨twin, hrun', ?_, fun name hp hr => inv.column name hp hr⟩
   obtain ⟨hi, m, h1, h2, h3, h4, h5, h6⟩ := inv.readings (ht ▸ hok)
   exact ⟨hi, m, h1, h2.trans ht, h3, h4, h5, fun k hk => h6 k (ht ▸ hk)⟩
@@ -209,10 +201,6 @@ def exHex : PyM (Hexital Int) := do
   let h ← Hexital.init {} none exCandles [exA, exB]
   h.calculate (some "SMA_2")
 
-def isOk {α : Type} : PyM α → Bool
-  | .ok _ => true
-  | .error _ => false
-
 /-- hypotheses of `member_calculate`, `calculate_one`, `member_column` and of the `keeps_ohlcv` theorems:
 both members registered once on the default manager, names without a dot, every operation succeeds;
 and the column computed for `RSI_2` is not empty -/
@@ -242,7 +230,7 @@ example : (exA ∈ Hexital.dedupe [exB, exA] ∧ exA.tfName = none) ∧
     treeOKb exB.tree.allNames exA.tree = true ∧
     exOps.all (TwinOp.okb exB.tree.allNames "SMA_2") = true ∧
     isOk (runHexital {} none exCandles [exB, exA] exOps) = true ∧
-    (match runTwin exA.tree {} exCandles exOps with
+    (match runTwin exA {} none exCandles exOps with
      | .ok twin => (twin.asList none).map Val.isNone
      | .error _ => []) = [true, false, false, false, false, false, false, false, false] := by
   refine ⟨⟨?_, rfl⟩, ?_, ?_, ?_, ?_⟩
